@@ -101,6 +101,12 @@ Fixpoint topify (top : ty) (t : ty) : ty :=
   | TVar x v None => TVar x v (Some top)
   | TVar x v (Some b) => TVar x v (Some (topify top b))
   | TApp c l => TApp c (map (topify top) l)
+  | TWild Cov (Some (TBuiltin x pr)) =>
+      (* out Top is the star projection: it contains every argument *)
+      match top with
+      | TBuiltin y _ => if Nat.eqb x y then TWild Inv None else TWild Cov (Some (TBuiltin x pr))
+      | _ => TWild Cov (Some (TBuiltin x pr))
+      end
   | TWild v (Some b) => TWild v (Some (topify top b))
   | x => x
   end.
@@ -309,6 +315,34 @@ Section Checker.
                                    | a => assignable (TOk a) (Some (subst false m b))
                                    end
                        end) (combine tparams targs).
+
+  (* bounds of the type arguments of ANY type occurrence  C<args>  of a class of the program: a concrete argument is
+     within its parameter's bound (the other arguments substituted); for  in L  the lower bound L is *)
+  Definition type_bounds_ok (t : ty) : bool :=
+    match t with
+    | TApp c args =>
+        match find (fun cl => Nat.eqb (cl_cid cl) c) cs with
+        | Some cl =>
+            let ps := cl_tparams cl in
+            if negb (Nat.eqb (length ps) (length args)) then true
+            else
+              let m := mk_map ps args in
+              forallb (fun pa => match tvar_bound (fst pa) with
+                                 | None => true
+                                 | Some b =>
+                                     let b' := subst false m b in
+                                     if existsb (fun qa => is_wild (snd qa) && occurs (fst qa) b) (combine ps args)
+                                     then true   (* the bound mentions a parameter whose argument is a projection: not judged (javac substitutes it textually) *)
+                                     else match snd pa with
+                                          | TWild Contra (Some l) => assignable (TOk l) (Some b')
+                                          | TWild _ _ => true
+                                          | a => assignable (TOk a) (Some b')
+                                          end
+                                 end) (combine ps args)
+        | None => true
+        end
+    | _ => true
+    end.
 
   Fixpoint chk (fuel : nat) (G : env) (path : list nat) (exp : option ty) (e : node) {struct fuel} : tres * list err :=
     match fuel with
@@ -752,9 +786,11 @@ Definition tv_scope_all (p : node) : list err :=
        match l with [] => [] | c :: l' => tv_scope [] [i] c ++ go (S i) l' end) 0 kids
   end.
 
-(* a use-site projection on a type parameter that the bound of ANOTHER parameter mentions, while that other parameter
-   has a concrete argument: class Foo<X, Y : Box<X>>, Foo<out Number, Box<Int>> -- the argument of Y would have to be
-   within Box<captured X>, which no nameable type is (javac: "not within bounds", kotlinc: upper bound violated) *)
+(* a use-site projection on a type parameter X that IS the bound of another parameter (class Foo<X, Y : X>), while that
+   other parameter has a concrete argument: Foo<out Number, Int> -- the argument of Y would have to be within the
+   captured X, which no nameable type is (javac: "type argument Integer is not within bounds of type-variable Y").
+   A bound that mentions X only as a type argument (Y : Box<X>, Y : Box<out X>) is not covered: javac substitutes
+   the projection textually there (Foo<? extends Number, Box<Integer>> is accepted for Y extends Box<? extends X>). *)
 Definition dep_proj_ok (cs : list cls) (t : ty) : bool :=
   match t with
   | TApp c args =>
@@ -765,7 +801,8 @@ Definition dep_proj_ok (cs : list cls) (t : ty) : bool :=
           else forallb (fun ia => match snd ia with
                                   | TWild _ (Some _) =>
                                       forallb (fun jb => match tvar_bound (fst jb) with
-                                                         | Some b => negb (occurs (fst ia) b) || is_wild (snd jb)
+                                                         | Some b => negb (match b, fst ia with TVar x _ _, TVar y _ _ => Nat.eqb x y | _, _ => false end) ||
+                                                                     is_wild (snd jb)
                                                          | None => true
                                                          end) (combine ps args)
                                   | _ => true
@@ -778,6 +815,12 @@ Definition dep_proj_ok (cs : list cls) (t : ty) : bool :=
 Definition wf_types (cs : list cls) (p : node) : list err :=
   map (fun t => (([] : list nat), 27, Some t, (None : option ty)))
       (filter (fun t => negb (dep_proj_ok cs t)) (type_occurrences p)).
+
+Fixpoint dedup_ty (seen l : list ty) : list ty :=
+  match l with
+  | [] => []
+  | t :: l' => if existsb (ty_eqb t) seen then dedup_ty seen l' else t :: dedup_ty (t :: seen) l'
+  end.
 
 Definition check_program (infer strict : bool) (L : lang) (cn : list (nat * nat)) (bclasses : ctable) (bt : btable) (arr : option nat)
            (kw : list nat) (p : node) : list err :=
@@ -887,13 +930,22 @@ Definition check_program (infer strict : bool) (L : lang) (cn : list (nat * nat)
            (if existsb (Nat.eqb (name_of_node d)) kw then [mkerr ([i]) 22] else [])
        | _ => []
        end)
-    (combine (seq 0 (length (kids_of p))) (kids_of p)) ++ tv_scope_all p ++ wf_types cs p.
+    (combine (seq 0 (length (kids_of p))) (kids_of p)) ++ tv_scope_all p ++ wf_types cs p ++
+    map (fun t => (([] : list nat), 28, Some t, (None : option ty)))
+        (filter (fun t => negb (type_bounds_ok strict L w cs t))
+                (dedup_ty [] (filter (fun t => match t with
+                                               | TApp c _ => match find (fun cl => Nat.eqb (cl_cid cl) c) cs with
+                                                             | Some cl => existsb (fun tp => match tvar_bound tp with Some _ => true | None => false end) (cl_tparams cl)
+                                                             | None => false
+                                                             end
+                                               | _ => false
+                                               end) (type_occurrences p)))).
 
 (* the errors that belong to one property *)
 Definition only_codes (codes : list nat) (l : list err) : list err :=
   filter (fun e => existsb (Nat.eqb (snd (fst (fst e)))) codes) l.
 
-Definition typing_codes : list nat := [1; 2; 3; 4; 5; 6; 7; 8; 16; 17; 18; 19; 20; 27].
+Definition typing_codes : list nat := [1; 2; 3; 4; 5; 6; 7; 8; 16; 17; 18; 19; 20; 27; 28].
 Definition scoping_codes : list nat := [9; 10; 11; 12; 13; 14; 15; 21; 22; 23; 24].
 
 (* what the erasure check judges: the typing codes plus the two inference-mode codes *)
